@@ -100,7 +100,18 @@ def handle_violations(mname, batch, max_buckets=8):
     reports = []
     engine.ensure_ctx({"pristine": any(k[0].startswith("hidden_state") for k in buckets)})
     os.makedirs(os.path.join(VERIF, "replays", mname), exist_ok=True)
-    for key in sorted(buckets)[:max_buckets]:
+    # one bucket per clause first, then a second per clause, ... up to max_buckets
+    by_clause = {}
+    for key in sorted(buckets):
+        by_clause.setdefault(key[0], []).append(key)
+    order = []
+    depth = 0
+    while len(order) < min(max_buckets, len(buckets)):
+        for c in sorted(by_clause):
+            if depth < len(by_clause[c]) and len(order) < max_buckets:
+                order.append(by_clause[c][depth])
+        depth += 1
+    for key in order:
         vs = sorted(buckets[key], key=lambda v: (len(v["ops"]), v["seed"]))
         v = vs[0]
         cfg, ops, n = shrink.minimise(m, v["cfg"], v["ops"], v["clause"], v["step"])
